@@ -393,6 +393,26 @@ def input_class(cfg, c):
         if own and own[0] != c[2]: return "reverser.board-not-owner"
     return None
 
+def defect_shape(cls, cfg, c, exp, o, prev):
+    """a rejected step inside a recorded class is only attributed to that class if the deviation has the recorded form;
+    anything else inside the class is still reported as unexpected"""
+    same_state = strip_rest(o["state"]) == strip_rest(prev)
+    msgs_ok = not match_expected((o["ret"], exp[1], strip_rest(o["state"])), (o["ret"], o["msgs"], o["state"]))
+    if cls in ("accessory.number>127", "accessory.aspect>127", "track-output.state-not-enum"):
+        return o["ret"] == 0 and o["msgs"] == [] and same_state
+    if cls in ("train-peripheral.state>1", "train-peripheral.bit5-7"):
+        t = [t for t in cfg["trains"] if t["id"] == c[1]][0]
+        addr = prev["B"].get(c[-1], [0, None])[1]
+        return o["ret"] == 0 and o["msgs"] is not None and (o["msgs"] == [] or (len(o["msgs"]) == 1 and o["msgs"][0][0] == addr and o["msgs"][0][1] == MSG_CS_DRIVE
+                and o["msgs"][0][2][:3] == [t["addrl"], t["addrh"], speed_fmt(t["steps"])] and o["msgs"][0][2][4] == 0))
+    if cls == "train.dcc-addrh>0x3f":
+        return o["ret"] == exp[0] and msgs_ok          # only the tracked state may deviate
+    if cls == "reverser.board-not-owner":
+        addr = prev["B"].get(c[2], [0, None])[1]
+        cv = [m["cv"] for b in cfg["boards"] for m in b["revs"] if m["id"] == c[1]][0]
+        return o["ret"] == 0 and o["msgs"] == [[addr, MSG_VENDOR_GET, [len(cv)] + [ord(x) for x in cv]]] and o["state"]["R"].get(c[1]) == 2
+    return False
+
 def spec_step(cfg, prev, c):
     """expected (ret, msgs, state) of command c in tracked state prev (the implementation's own previous snapshot)"""
     st = copy.deepcopy(strip_rest(prev)); bad = (1, [], strip_rest(prev)); k = c[0]
@@ -575,7 +595,7 @@ def judge_case(ck, cfg, steps, res, tag, stats, corr):
             if cls is None: stats["valid_clean"] += 1
         if cls: stats["classes"][cls] = stats["classes"].get(cls, 0) + 1
         if why:
-            key = cls or ("unexpected." + s[0])
+            key = cls if cls and defect_shape(cls, cfg, s, exp, o, prev) else ("unexpected." + s[0])
             stats["viol"][key] = stats["viol"].get(key, 0) + 1
             if stats["viol"][key] == 1:      # the first hit of a class is the smallest (witness case first); later ones are only counted
                 ck.violation(key, dict(replay_base, steps=[list(x) for x in steps[:i + 1]], step=i, command=list(s), state_before=strip_rest(prev),
